@@ -492,7 +492,10 @@ class WARCRecorder(object):
         Returns:
             str, None: A string in the form ``type/subtype`` or None.
         '''
-        match = re.match(r'([a-zA-Z0-9-]+/[a-zA-Z0-9-]+)', value)
+        match = re.match(
+            r"([!#$%&'*+.^_`|~a-zA-Z0-9-]+/[!#$%&'*+.^_`|~a-zA-Z0-9-]+)",
+            value
+        )
 
         if match:
             return match.group(1)
